@@ -19,6 +19,10 @@ def gen_c07_history(rnd):
         wk = rnd.choice(["CommonNoun", "ProperNoun", "Guess", "Guess"])
         r = "".join(rnd.choice(alpha if rnd.random() < 0.7 else full) for _ in range(rnd.randint(1, 4)))
         w = "".join(rnd.choice(KANJI + "aZ9/;") for _ in range(rnd.randint(1, 3)))
+        if rnd.random() < 0.12:
+            r = "".join(rnd.choice(alpha) for _ in range(rnd.randint(19, 30)))      # a long reading (any internal length cap shows here)
+        if rnd.random() < 0.15:
+            w = r                                                                   # written exactly as it is read (らーめん/らーめん)
         if wk == "Guess":
             end = rnd.choice(ENDINGS)
             r, w = r + end, w + end
